@@ -13,7 +13,7 @@
    NO proofs in this file. *)
 From Coq Require Import ZArith List Bool Arith.
 From Common Require Import ListAux.
-From Hash Require Import HashBase.
+From Hash Require Import Gen_Hash HashBase.
 Import ListNotations.
 Local Open Scope Z_scope.
 
@@ -244,22 +244,24 @@ Arguments entries {K}. Arguments m_obs {K}. Arguments run {K}. Arguments init {K
 (* The concrete hash functions of the library (used only by the correspondence check to compare
    bucket indices; every theorem is about an arbitrary hash).
    Base.hpp: hash(intN v) = (usize)v: sign extension to 64 bits, i.e. v mod 2^64 for every
-   integer type, signed or unsigned.
+   integer type, signed or unsigned;  for a pointer key the address is shifted right by sizeof(pointer) / 4 + 1 = 3 bits.
+   The multiplier 16807 and the shift 3 are regenerated from the headers (Gen_Hash.v).
    String.hpp: h = len; h *= 16807; h ^= s[0]; h *= 16807; h ^= s[len/2]; h *= 16807;
    h ^= s[len - (len != 0)], arithmetic mod 2^64, char is signed (sign-extended before the xor),
    s[len] is the terminating 0. *)
 Definition two64 : Z := 18446744073709551616.
 Definition hash_int (v : Z) : Z := v mod two64.
+Definition hash_ptr (v : Z) : Z := Z.shiftr (v mod two64) gen_ptr_hash_shift.
 Definition sx_char (b : Z) : Z := (if b <? 128 then b else b - 256) mod two64.
 Definition str_at (s : list Z) (i : Z) : Z := nth (Z.to_nat i) s 0.
 Definition hash_str (s : list Z) : Z :=
   let len := Z.of_nat (length s) in
   let h := len in
-  let h := (h * 16807) mod two64 in
+  let h := (h * gen_str_hash_mult) mod two64 in
   let h := Z.lxor h (sx_char (str_at s 0)) in
-  let h := (h * 16807) mod two64 in
+  let h := (h * gen_str_hash_mult) mod two64 in
   let h := Z.lxor h (sx_char (str_at s (len / 2))) in
-  let h := (h * 16807) mod two64 in
+  let h := (h * gen_str_hash_mult) mod two64 in
   Z.lxor h (sx_char (str_at s (len - (if len =? 0 then 0 else 1)))) .
 
 Fixpoint bytes_eqb (a b : list Z) : bool :=
